@@ -428,3 +428,197 @@ theorem pending_consumer (C : Consumer σ ρ) (c c' : Config σ ρ) (hs : stepCo
   · cases hs
 
 end ScVerif.C17
+
+namespace ScVerif.C17
+
+/-! ## what is on the channel: each member's own response, once -/
+
+/-- the response a member goroutine holds / has sent -/
+def MPc.resp : MPc → Option Resp
+  | .start => none
+  | .ran r | .sent r | .done r => some r
+
+structure HistInv (c : Config σ ρ) : Prop where
+  mem : ∀ (i : Nat) (r : Resp), (i, r) ∈ c.hist ↔ (c.members[i]? = some (.sent r) ∨ c.members[i]? = some (.done r))
+  nodup : (c.hist.map (·.1)).Nodup
+  own : ∀ (i : Nat) (m : MPc) (r : Resp), c.members[i]? = some m → m.resp = some r →
+    ∃ b : Beh, c.behs[i]? = some b ∧ (r = b.normal ∨ b.onCancel = some r)
+
+theorem histInv_init (C : Consumer σ ρ) (behs : List Beh) (cap : Nat) : HistInv (Config.init C behs cap) := by
+  refine ⟨?_, by simp [Config.init], ?_⟩
+  · intro i r
+    simp only [Config.init, List.not_mem_nil, false_iff, not_or]
+    constructor <;> intro h <;> simp [List.getElem?_replicate] at h
+  · intro i m r hm hr
+    simp only [Config.init, List.getElem?_replicate] at hm
+    split at hm
+    · injection hm with hm; subst hm; simp [MPc.resp] at hr
+    · cases hm
+
+theorem histInv_member (c c' : Config σ ρ) (i : Nat) (h : HistInv c)
+    (hs : stepMember c i = some c') : HistInv c' := by
+  unfold stepMember at hs
+  split at hs
+  · -- run
+    rename_i b hm hb
+    injection hs with hs
+    subst hs
+    have hi := lt_of_getElem? hm
+    refine ⟨?_, h.nodup, ?_⟩
+    · intro j r
+      simp only
+      by_cases hji : j = i
+      · subst hji
+        rw [List.getElem?_set_self hi]
+        have := (h.mem j r)
+        rw [hm] at this
+        simpa using this
+      · rw [List.getElem?_set_ne (fun e => hji e.symm)]
+        exact h.mem j r
+    · intro j m r hjm hr
+      simp only at hjm ⊢
+      by_cases hji : j = i
+      · subst hji
+        rw [List.getElem?_set_self hi] at hjm
+        injection hjm with hjm
+        subst hjm
+        simp only [MPc.resp, Option.some.injEq] at hr
+        subst hr
+        refine ⟨b, hb, ?_⟩
+        unfold Beh.respond
+        split
+        · cases hoc : b.onCancel with
+          | none => left; simp
+          | some x => right; simp
+        · left; rfl
+      · rw [List.getElem?_set_ne (fun e => hji e.symm)] at hjm
+        exact h.own j m r hjm hr
+  · -- send
+    rename_i r hm
+    split at hs
+    · injection hs with hs
+      subst hs
+      have hi := lt_of_getElem? hm
+      have hnot : ∀ r', (i, r') ∉ c.hist := by
+        intro r' hin
+        have := (h.mem i r').mp hin
+        rw [hm] at this
+        simp at this
+      refine ⟨?_, ?_, ?_⟩
+      · intro j r'
+        simp only [List.mem_append, List.mem_singleton, Prod.mk.injEq]
+        by_cases hji : j = i
+        · subst hji
+          rw [List.getElem?_set_self hi]
+          constructor
+          · rintro (hin | ⟨_, rfl⟩)
+            · exact absurd hin (hnot r')
+            · left; rfl
+          · rintro (heq | heq)
+            · injection heq with heq; injection heq with heq; right; exact ⟨rfl, heq.symm⟩
+            · injection heq with heq; cases heq
+        · rw [List.getElem?_set_ne (fun e => hji e.symm)]
+          constructor
+          · rintro (hin | ⟨hj, _⟩)
+            · exact (h.mem j r').mp hin
+            · exact absurd hj hji
+          · intro hh; left; exact (h.mem j r').mpr hh
+      · simp only [List.map_append, List.map_cons, List.map_nil]
+        rw [List.nodup_append]
+        refine ⟨h.nodup, by simp, ?_⟩
+        intro a ha b hb
+        simp only [List.mem_singleton] at hb
+        subst hb
+        intro hab
+        subst hab
+        obtain ⟨x, hx, hx1⟩ := List.mem_map.mp ha
+        obtain ⟨j, r'⟩ := x
+        simp only at hx1
+        subst hx1
+        exact hnot r' hx
+      · intro j m r' hjm hr
+        simp only at hjm ⊢
+        by_cases hji : j = i
+        · subst hji
+          rw [List.getElem?_set_self hi] at hjm
+          injection hjm with hjm
+          subst hjm
+          exact h.own j (.ran r) r' hm (by simpa [MPc.resp] using hr)
+        · rw [List.getElem?_set_ne (fun e => hji e.symm)] at hjm
+          exact h.own j m r' hjm hr
+    · cases hs
+  · -- all.Done()
+    rename_i r hm
+    injection hs with hs
+    subst hs
+    have hi := lt_of_getElem? hm
+    refine ⟨?_, h.nodup, ?_⟩
+    · intro j r'
+      simp only
+      by_cases hji : j = i
+      · subst hji
+        rw [List.getElem?_set_self hi]
+        have := h.mem j r'
+        rw [hm] at this
+        rw [this]
+        constructor
+        · rintro (heq | heq)
+          · injection heq with heq; injection heq with heq; right; rw [heq]
+          · cases heq
+        · rintro (heq | heq)
+          · cases heq
+          · injection heq with heq; injection heq with heq; left; rw [heq]
+      · rw [List.getElem?_set_ne (fun e => hji e.symm)]
+        exact h.mem j r'
+    · intro j m r' hjm hr
+      simp only at hjm ⊢
+      by_cases hji : j = i
+      · subst hji
+        rw [List.getElem?_set_self hi] at hjm
+        injection hjm with hjm
+        subst hjm
+        exact h.own j (.sent r) r' hm (by simpa [MPc.resp] using hr)
+      · rw [List.getElem?_set_ne (fun e => hji e.symm)] at hjm
+        exact h.own j m r' hjm hr
+  · cases hs
+
+theorem histInv_step (C : Consumer σ ρ) (c c' : Config σ ρ) (t : Tid) (h : HistInv c)
+    (hs : step C c t = some c') : HistInv c' := by
+  cases t with
+  | member i => exact histInv_member c c' i h hs
+  | closer =>
+    simp only [step, stepCloser] at hs
+    split at hs
+    · split at hs
+      · injection hs with hs; subst hs; exact ⟨h.mem, h.nodup, h.own⟩
+      · cases hs
+    · injection hs with hs; subst hs; exact ⟨h.mem, h.nodup, h.own⟩
+    · cases hs
+  | consumer =>
+    simp only [step, stepConsumer] at hs
+    split at hs
+    · split at hs
+      · injection hs with hs; subst hs; exact ⟨h.mem, h.nodup, h.own⟩
+      · split at hs
+        · injection hs with hs; subst hs; exact ⟨h.mem, h.nodup, h.own⟩
+        · cases hs
+    · split at hs
+      · injection hs with hs; subst hs; exact ⟨h.mem, h.nodup, h.own⟩
+      · injection hs with hs; subst hs; exact ⟨h.mem, h.nodup, h.own⟩
+    · cases hs
+  | env =>
+    simp only [step] at hs
+    injection hs with hs; subst hs; exact ⟨h.mem, h.nodup, h.own⟩
+
+theorem histInv_exec (C : Consumer σ ρ) (sched : List Tid) (c : Config σ ρ) (h : HistInv c) :
+    HistInv (exec C c sched) := by
+  induction sched generalizing c with
+  | nil => exact h
+  | cons t ts ih =>
+    apply ih
+    unfold stepD
+    cases hs : step C c t with
+    | none => exact h
+    | some c' => exact histInv_step C c c' t h hs
+
+end ScVerif.C17
